@@ -259,6 +259,25 @@ claim('C06',
       'composition over the finite byte x context product',
       'DESIGN.md section 4 C06')
 
+claim('C18',
+      'Decides Game.write_cart_data for ALL (address, length) pairs: the '
+      'index arithmetic is piecewise affine in (start, end) with breakpoints '
+      'at the evaluated region bounds, so evaluating the extracted slice '
+      'bounds (with Python slice normalisation, incl. negative and -0 '
+      'bounds) at affinely independent representatives of every cell of the '
+      'arrangement is a complete decision; plus the memory map against the '
+      'reference and the region constructors, and the rejection threshold.',
+      'Decided: destination/source slices equal the specification on every '
+      'cell, equal lengths (no region changes size), nothing stored on an '
+      'empty intersection, reject iff end > 0x4300, map == reference. Not '
+      'decided: sequences of writes (each write is decided; composition is '
+      'trivial but not mechanised). Trusted: Python slice-assignment '
+      'semantics; refs/formats.py.',
+      'static analysis: piecewise-affine cell analysis of extracted index '
+      'expressions (own integer evaluator, no cart data), constant '
+      'evaluation of the memory map, CFG dominance',
+      'DESIGN.md section 4 C18, Appendix A.2')
+
 
 def main():
     props = []
